@@ -31,6 +31,12 @@ Every event is executed through `Cache.transaction(mode)` / the `Cache` command 
 cache, and every command also on a second `Cache` whose `Memory` started as a copy of the first ("direct").
 After each event the raw backend stores are read without touching them (the outside observer).
 
+Fan-out: `fan gather|task|group <command> | <command> | ...` issues the commands from CHILD tasks that the body awaits inside the
+block - `await asyncio.gather(c1, c2, ...)`, `await asyncio.create_task(c)` one after the other, or an `asyncio.TaskGroup` - the
+usage of upstream's test_gather.  A child task inherits a copy of the context and with it the transaction: its commands are commands
+of the transaction (buffered, invisible outside, rolled back with it, and they see the earlier writes).  The children run one at a
+time (a lock of the harness), so the trace holds one ordinary line per command, in the order in which they ran.
+
 Control state: `disable <word>...` / `enable <word>...` (anywhere in a program; words = the protocol words of the commands)
 call `cache.disable(Command.X, ...)` / `cache.enable(...)` on the transactional cache and on the direct copy.  A command that
 is disabled when it is issued goes nowhere and hands back its default (`N` = None); commands that were enabled when issued
@@ -86,6 +92,34 @@ def pyglob(pat: str, key: str) -> bool:
 RESERVED_NAMES = [":serializable:lock"] + [f":tx_lock:{n}" for n in NAMES.values()]
 
 
+def route(config: str, text: str) -> str:
+    """the prefix of the backend a key or a pattern is routed to (`Wrapper._get_backend`: longest prefix first)"""
+    for p in sorted(PREFIXES.get(config, []), reverse=True):
+        if text.startswith(p):
+            return p
+    return ""
+
+
+def pattern_faithful(config: str, pat: str) -> bool:
+    """a pattern command goes to ONE backend, chosen by the text of the pattern: on a prefix-routed cache it is the same
+    command as on one store only if every key it matches lives on that backend"""
+    return all(route(config, n) == route(config, pat) for n in NAMES.values() if pyglob(pat, n))
+
+
+def make_faithful(config: str, events: list[str]) -> list[str]:
+    """the program with every pattern that would select keys of another backend than the one it is routed to replaced"""
+    if config not in PREFIXES:
+        return events
+    out = []
+    for e in events:
+        w = e.split()
+        for i in range(1, len(w)):
+            if w[i - 1] in PATTERN_CMDS and w[i].startswith("x") and not pattern_faithful(config, dec(w[i])):
+                w[i] = enc("kb2*") if pattern_faithful(config, "kb2*") else enc("ka*")
+        out.append(" ".join(w))
+    return out
+
+
 def pattern_safe(pat: str) -> bool:
     """the proviso: the pattern does not reach the transaction's own ':'-prefixed lock keys"""
     return not any(pyglob(pat, r) for r in RESERVED_NAMES)
@@ -93,7 +127,11 @@ def pattern_safe(pat: str) -> bool:
 CONFIGS = {
     "facade": "mem://?size=1000&check_interval=0",
     "facade_secret": "mem://?size=1000&check_interval=0&secret=s3cr3t&digestmod=sha1",
+    # prefix-routed caches: the keys are spread over two / three backends, one transaction holds a TransactionBackend per backend
+    "facade2": "mem://?size=1000&check_interval=0",
+    "facade3": "mem://?size=1000&check_interval=0",
 }
+PREFIXES = {"facade2": ["kb"], "facade3": ["kb1", "kb2"]}     # extra backends: `cache.setup(url, prefix=p)`
 
 
 class Boom(Exception):
@@ -309,15 +347,23 @@ class TxRunner:
         self.seg_marked: dict[str, set] = {}        # pattern -> store keys it marked for deletion in this segment
         self.disabled: set[str] = set()             # protocol words of the commands that are disabled right now
         self.seg_accepted: set[str] = set()         # write commands accepted into the running transaction segment
+        self.seg_child_writes = False               # a child task wrote inside the running segment
 
     def bump(self, k: str):
         self.stats[k] = self.stats.get(k, 0) + 1
 
     # -- the outside observer: raw, non-touching ---------------------------------------------------
-    async def view(self, backend) -> str:
+    async def view(self, backends) -> str:
+        """the union of the stores (keys are routed by prefix: no key is on two backends - except the serializable lock, which
+        every touched backend holds: shown once, with the earliest deadline, as the model takes it at the first write)"""
         items = []
-        for name, (expire_at, raw) in list(backend.store.items()):
+        glob_lock = None
+        for backend in backends:
+          for name, (expire_at, raw) in list(backend.store.items()):
             if expire_at is not None and expire_at <= CLOCK.t:
+                continue
+            if name == ":serializable:lock" and len(backends) > 1:
+                glob_lock = expire_at if glob_lock is None else min(glob_lock, expire_at)
                 continue
             k = model_key(name)
             if k is None:
@@ -332,21 +378,43 @@ class TxRunner:
                 v = show_val(val)
             d = "-" if expire_at is None else str(round((expire_at - BASE) * 8))
             items.append((k, f"{k}:{v}:{d}"))
+        if glob_lock is not None:
+            items.append((1, f"1:L:{round((glob_lock - BASE) * 8)}"))
         return ",".join(s for _, s in sorted(items))
 
     async def views(self) -> str:
-        return f"b={await self.view(self.backend)} d={await self.view(self.dbackend)}"
+        return f"b={await self.view(self.backends)} d={await self.view(self.dbackends)}"
 
     def resync(self):
-        self.dbackend.store = OrderedDict((k, copy.deepcopy(v)) for k, v in self.backend.store.items())
+        for b, d in zip(self.backends, self.dbackends):
+            d.store = OrderedDict((k, copy.deepcopy(v)) for k, v in b.store.items())
+
+    def _store_get(self, name: str):
+        for b in self.backends:
+            if name in b.store:
+                return b.store[name]
+        return None
+
+    def _store_items(self):
+        return [kv for b in self.backends for kv in b.store.items()]
 
     # -- internal peeks used only for the interesting-state statistics ------------------------------
     def _txb(self):
         try:
             tx = next(t for t in self.txs if t is not None)
-            return tx._backends.get(self.backend._id)
+            got = [tx._backends[b._id] for b in self.backends if b._id in tx._backends]
         except Exception:
             return None
+        if not got:
+            return None
+        if len(got) > 1:
+            self.bump("transaction_holds_several_backends")
+        if len(self.backends) == 1:
+            return got[0]
+        merged = _NothingPending()
+        merged._local_cache = type("S", (), {"store": {k: v for t in got for k, v in t._local_cache.store.items()}})
+        merged._to_delete = frozenset(k for t in got for k in t._to_delete)
+        return merged
 
     def _classify_enter(self, kind: str):
         fr = self.frames
@@ -387,7 +455,7 @@ class TxRunner:
         for x in w[1:]:
             name = tx_name(x)
             ov = txb._local_cache.store.get(name)
-            ent = self.backend.store.get(name)
+            ent = self._store_get(name)
             in_store = ent is not None and not (ent[0] is not None and ent[0] <= CLOCK.t)
             if name in txb._to_delete and in_store:
                 self.bump("caller_default_read_of_pending_delete")
@@ -401,7 +469,7 @@ class TxRunner:
     def _classify_pattern(self, txb, w: list[str]):
         """interesting states of a pattern command inside a transaction (peeks, statistics only)"""
         pat = dec(w[1])
-        live = {n for n, (exp, _v) in self.backend.store.items() if not (exp is not None and exp <= CLOCK.t)}
+        live = {n for n, (exp, _v) in self._store_items() if not (exp is not None and exp <= CLOCK.t)}
         hits = [n for n in NAMES.values() if pyglob(pat, n)]
         pending = set(txb._local_cache.store)
         deleted = set(txb._to_delete)
@@ -456,7 +524,7 @@ class TxRunner:
         name = tx_name(w[1])
         in_ov = name in txb._local_cache.store
         in_del = name in txb._to_delete
-        ent = self.backend.store.get(name)
+        ent = self._store_get(name)
         in_store = ent is not None and not (ent[0] is not None and ent[0] <= CLOCK.t)
         if ent is not None and not in_store:
             self.bump("tx_command_on_expired_unpurged_store_key")
@@ -488,6 +556,8 @@ class TxRunner:
         if txb is None:
             return
         pending = bool(txb._local_cache.store) or bool(txb._to_delete)
+        if self.seg_child_writes:
+            self.bump(f"{how}_after_writes_from_child_tasks")
         if pending and how in ("commit", "commitnow") and self.disabled:
             self.bump("commit_under_a_control_state")
             for wcmd in self.seg_accepted:
@@ -514,9 +584,11 @@ class TxRunner:
         url = CONFIGS[self.config]
         self.cache = Cache()
         self.backend = self.cache.setup(url)
+        self.backends = [self.backend] + [self.cache.setup(url, prefix=p) for p in PREFIXES.get(self.config, [])]
         await self.cache.init()
         self.direct = Cache()
         self.dbackend = self.direct.setup(url)
+        self.dbackends = [self.dbackend] + [self.direct.setup(url, prefix=p) for p in PREFIXES.get(self.config, [])]
         await self.direct.init()
         # `_transaction` and the disable sets are ContextVars: the direct copy lives in a context of its own, outside every
         # transaction of the task, which keeps what `disable` / `enable` did to it
@@ -556,18 +628,53 @@ class TxRunner:
         else:
             self.trace.append((line, f"tx={a} direct={b} " + await self.views()))
 
+    async def _fan(self, line: str):
+        """the commands of a `fan` line, each issued from a child task that is awaited here"""
+        _, how, rest = line.split(None, 2)
+        cmds = [c.strip() for c in rest.split("|") if c.strip()]
+        gate = asyncio.Lock()
+        parent = asyncio.current_task()
+
+        async def child(c: str):
+            async with gate:
+                if asyncio.current_task() is parent:
+                    raise RuntimeError("a fan-out command must run in a child task")
+                if self.frames:
+                    self.bump(f"command_from_a_child_task_inside_block_{how}")
+                    if c.split()[0] in WRITE_CMDS:
+                        self.bump("write_from_a_child_task_inside_block")
+                        self.seg_child_writes = True
+                    elif self.seg_accepted:
+                        self.bump("read_from_a_child_task_after_writes")
+                await self._command(c)
+
+        if how == "gather":
+            await asyncio.gather(*(child(c) for c in cmds))
+        elif how == "task":
+            for c in cmds:
+                await asyncio.create_task(child(c))
+        elif how == "group":
+            async with asyncio.TaskGroup() as tg:
+                for c in cmds:
+                    tg.create_task(child(c))
+        else:
+            raise ValueError(f"bad fan-out {line}")
+
     async def _control(self, line: str, w: list[str]):
         from cashews import Command
 
         cmds = [getattr(Command, CONTROL_WORDS[x]) for x in w[1:]]
+        prefixes = [""] + PREFIXES.get(self.config, [])      # `disable` acts on ONE backend (its `prefix` argument): every backend gets it
         if w[0] == "disable":
-            self.cache.disable(*cmds)
-            self.dctx.run(self.direct.disable, *cmds)
+            for p in prefixes:
+                self.cache.disable(*cmds, prefix=p)
+                self.dctx.run(lambda p=p: self.direct.disable(*cmds, prefix=p))
             self.disabled |= set(w[1:])
             self.bump("disable_inside_block" if self.frames else "disable_outside_block")
         else:
-            self.cache.enable(*cmds)
-            self.dctx.run(self.direct.enable, *cmds)
+            for p in prefixes:
+                self.cache.enable(*cmds, prefix=p)
+                self.dctx.run(lambda p=p: self.direct.enable(*cmds, prefix=p))
             self.disabled -= set(w[1:])
         self.trace.append((line, "ok " + await self.views()))
 
@@ -626,6 +733,7 @@ class TxRunner:
                     self.after_explicit = ""
                     self.seg_patterns, self.seg_marked = [], {}
                     self.seg_accepted = set()
+                    self.seg_child_writes = False
 
         res = "U"
         came_out = "ok"
@@ -692,11 +800,15 @@ class TxRunner:
                 self.resync()
                 self.seg_patterns, self.seg_marked = [], {}
                 self.seg_accepted = set()
+                self.seg_child_writes = False
                 if self.frames:
                     self.after_explicit = w[0]
                 continue
             if w[0] in ("disable", "enable"):
                 await self._control(line, w)
+                continue
+            if w[0] == "fan":
+                await self._fan(line)
                 continue
             await self._command(line)
         return "ok"
@@ -714,7 +826,7 @@ class TxRunner:
 def execute(case: dict):
     """-> (trace [(protocol line, impl answer)], stats)"""
     r = TxRunner(case["config"])
-    events = normalize(case["events"])
+    events = make_faithful(case["config"], normalize(case["events"]))
     trace = vtime.run(r.run, case["init"], events)
     return trace, r.stats
 
@@ -996,6 +1108,11 @@ def gen_events(rng, maxlen: int, crossing: bool) -> list[str]:
                 ev.append(rng.choice(["rollback", "rollback", "commitnow"]))
             elif r < 0.48:
                 ev.append(gen_control(rng))                    # ... or in the middle of one
+            elif r < 0.56:
+                # fan-out: commands issued from child tasks the body awaits
+                how = rng.choice(["gather", "gather", "task", "group"])
+                k = rng.choice([1, 2, 2, 3]) if how != "task" else rng.choice([1, 1, 2])
+                ev.append(f"fan {how} " + " | ".join(gen_command(rng, ttls, recent) for _ in range(k)))
             else:
                 c = gen_command(rng, ttls, recent)
                 ev.append(c)
@@ -1017,7 +1134,7 @@ def gen_events(rng, maxlen: int, crossing: bool) -> list[str]:
 def gen_case(rng, i: int) -> dict:
     crossing = i % 8 == 7
     return {
-        "config": "facade_secret" if i % 5 == 4 else "facade",
+        "config": "facade_secret" if i % 5 == 4 else "facade2" if i % 5 == 1 else "facade3" if i % 10 == 3 else "facade",
         "init": gen_init(rng),
         "events": gen_events(rng, 14 if i % 3 else 6, crossing),
     }
@@ -1192,3 +1309,52 @@ def control_cases():
                             ev.append(dis)
                         ev += [f"exit {'exc' if i % 5 == 0 else 'ok'}", "enable " + " ".join(CONTROL_WORDS), "getmany 0 2 4", "getexpire 4"]
                         yield {"config": "facade", "init": ini + ["adv 3"], "events": ev}
+
+
+# ----------------------------------------------------------------------------------------------------
+# fan-out inside a block, enumerated
+
+def fanout_cases():
+    """writes and reads issued from child tasks (`asyncio.gather` of three commands / `await create_task(...)` / a TaskGroup) inside
+    a block of each mode, before and after writes of the parent task, the outside observer probing after every command, the block
+    ended by commit / an exception / a cancellation / an explicit rollback followed by more child writes"""
+    for mode in MODES:
+        for how in ("gather", "task", "group"):
+            for end in ("ok", "exc", "cancel", "rollback"):
+                for ini in (["set 2 i:5 - a", "set 4 t:3 83 a"], []):
+                    ev = [f"enter {mode}", "set 0 t:1 - a",
+                          f"fan {how} set 0 t:9 16 a | delete 2 | incr 4 1 -",
+                          "getmany 0 2 4",
+                          f"fan {how} get 0 | exists 2 | set 2 t:7 - nx",
+                          f"fan {how} delmatch {enc('kb2*')} | scan {enc('k*')}"]
+                    if end == "rollback":
+                        ev += ["rollback", f"fan {how} set 4 t:8 - a | get 4", "exit ok"]
+                    else:
+                        ev.append(f"exit {end}")
+                    ev += ["getmany 0 2 4", f"fan {how} set 0 i:1 - a | get 0"]
+                    yield {"config": "facade", "init": ini + ["adv 3"], "events": ev}
+
+
+# ----------------------------------------------------------------------------------------------------
+# one transaction over several prefix-routed backends, enumerated
+
+MULTI_SCRIPTS = [
+    ["get 0", "set 2 t:9 - a"],                                   # the default backend is only read, the prefixed one written
+    ["set 0 t:1 16 a", "incr 2 1 -", "delete 4", "setmany - 0=t:7 4=t:8", "getmany 0 2 4", "delmany 0 2"],
+    ["delete 0", "set 4 t:2 - a", f"delmatch {enc('kb2*')}", "expire 2 80", "set 0 i:1 - nx", f"scan {enc('kb2*')}"],
+    ["set 4 t:4 - a", "set 2 t:5 8 a", "set 0 t:6 - a", "exists 2"],                               # last backend first
+]
+
+
+def multi_backend_cases():
+    """a cache whose keys are routed by prefix to two / three backends x 3 modes x 4 scripts touching several of them (one of
+    them only by a read) x 2 initial stores x the block committed / left by an exception / committed explicitly mid-body and
+    continued; afterwards every key is read.  A commit has to apply the writes of EVERY backend and release every lock."""
+    for config in ("facade2", "facade3"):
+        for mode in MODES:
+            for script in MULTI_SCRIPTS:
+                for ini in (["set 0 t:1 - a", "set 2 i:5 - a", "set 4 t:3 83 a"], []):
+                    for end in ("ok", "exc", "commitnow"):
+                        ev = [f"enter {mode}", *script]
+                        ev += ["commitnow", "set 2 t:1 - a", "delete 0", "exit ok"] if end == "commitnow" else [f"exit {end}"]
+                        yield {"config": config, "init": ini + ["adv 3"], "events": ev + ["getmany 0 2 4", "getexpire 2"]}
